@@ -68,7 +68,7 @@ def check_case(case, ctx):
     import verif.util
 
     b = case["bin_type"]
-    T = [float(t) for t in case["thresholds"]]
+    T = [float(t) for t in case.get("thresholds", [0.0, 1.0])]
     values = [float(v) for v in case.get("values", relation_values(T))]
     evs = model.events(b, T)
     intervals = verif.util.get_intervals(b, np.array(T))
